@@ -58,6 +58,7 @@ type CodeScanner struct {
 	firstCh   rune // 记录开头结尾是 ' 还是 "
 	brace     int  // ${} 内 { 的数量
 	quote     rune // 字符串使用的引号
+	closed    bool // 是否已读取到结尾的引号
 	nextToken *CodeToken
 	tokens    []*CodeToken
 }
@@ -78,7 +79,12 @@ func (t *CodeScanner) GetAllTokens() ([]*CodeToken, error) {
 		t.NextToken()
 	}
 	if errors.Is(t.err, io.EOF) {
-		t.err = nil
+		if t.closed {
+			t.err = nil // 结尾引号已读取 正常结束
+		} else {
+			// 结尾引号之前就读到 EOF 说明属性值/代码块/字符串不完整
+			t.err = errors.Errorf("%v: %w", t.err, ErrUnexpectedEOF)
+		}
 	}
 	return t.tokens, t.err
 }
@@ -159,6 +165,7 @@ func (t *CodeScanner) scanLiteral() (*CodeToken, error) {
 			// 读取到了结尾的引号
 			t.state = codeEnd
 			if str == "" { // 无字面量字符串 直接返回结束符号
+				t.closed = true
 				return t.addToken(&CodeToken{
 					Kind:  BegEnd,
 					Value: string(ch),
